@@ -44,7 +44,7 @@ SPEC = {
     "components_real": ["fakesnow/* incl. execute_string", "sqlglot", "duckdb engine (in-memory)"],
     "components_stubbed": ["nothing; three instances side by side in one process"],
     "assumptions": ["the worlds do not interact (separate FakeSnow instances)"],
-    "mandatory_probes": {"any": ["failing_statement", "nop_match", "special_literal", "comment_or_empty", "dict_cursor_class", "variable_in_batch", "return_cursors_false"]},
+    "mandatory_probes": {"any": ["failing_statement", "nop_match", "special_literal", "comment_or_empty", "dict_cursor_class", "variable_in_batch", "return_cursors_false", "no_semicolon_batch"]},
 }
 
 SPECIALS = ["semi;colon", "it's", 'dq"dq', "dash--dash", "/* not a comment */", "back\\slash", "new\nline", "tab\tin", "ünï©ode ✓", "", " lead and trail ", "%s %d %%", "a;b;c--d"]
@@ -63,8 +63,8 @@ def gen(rng: Any, prop: str, tier: str) -> dict[str, Any]:
     var_set = rng.random() < 0.4
     if var_set:
         pre.append(f"SET BV = {g.fresh()}")
-    n = rng.randint(2, 15)
-    fail_at = rng.randrange(n) if rng.random() < 0.35 else None
+    n = rng.choice([0, 1, 1, 1] + list(range(2, 16)) * 2)
+    fail_at = rng.randrange(n) if n and rng.random() < 0.35 else None
     stmts: list[dict[str, Any]] = []
     for i in range(n):
         if i == fail_at:
@@ -116,6 +116,9 @@ def gen(rng: Any, prop: str, tier: str) -> dict[str, Any]:
     glue = []
     for _ in range(n + 1):
         glue.append(rng.choice([";", ";\n", " ;  ", ";\n-- a comment; with a semicolon\n", ";\n/* block; comment */\n", ";;", ";\n\n;", "; -- trailing\n"]))
+    if n <= 1:
+        # a batch without any semicolon: one statement (or none) with comments around it
+        glue = [rng.choice(["", "\n", " -- trailing comment", "\n/* after */", ";"])]
     nop = None
     r = rng.random()
     if r < 0.5:
@@ -130,7 +133,7 @@ def gen(rng: Any, prop: str, tier: str) -> dict[str, Any]:
                 nop.append(p)
     return {
         "profile": NAME,
-        "config": {"nop": nop, "pre": pre, "hazards": hz, "dict": rng.random() < 0.25, "return_cursors": rng.random() >= 0.2, "lead": rng.choice(["", "\n", "-- leading comment\n", "/* lead */ "])},
+        "config": {"nop": nop, "pre": pre, "hazards": hz, "dict": rng.random() < 0.25, "return_cursors": rng.random() >= 0.2, "lead": rng.choice(["", "\n", "-- leading comment\n", "/* lead */ "]) if n else rng.choice(["-- only a comment", "/* nothing */", "  ", ";"])},
         "stmts": stmts,
         "glue": glue,
         "ops": [],
@@ -261,7 +264,8 @@ def run(case: dict[str, Any]) -> dict[str, Any]:
                 elif wb.observe(with_sessions=False) != wc.observe(with_sessions=False):
                     violation = v_("nop-has-effect", "a no-op'd statement has no effect and the others the same effect as without the option", {"patterns": cfg["nop"], "matched": [stmts[i] for i in matched]})
         kinds = [s["kind"] for s in case["stmts"]]
-        nontrivial = len(stmts) >= 3 and (probes["special_literal"] + probes["comment_or_empty"] + probes["failing_statement"] + probes["nop_match"] > 0)
+        probes["no_semicolon_batch"] = 1 if ";" not in text else 0
+        nontrivial = (len(stmts) >= 3 or ";" not in text) and (probes["special_literal"] + probes["comment_or_empty"] + probes["failing_statement"] + probes["nop_match"] > 0)
         return {
             "violations": [violation] if violation else [],
             "digest": sim.digest(),
